@@ -82,6 +82,8 @@ def run_cum(case):
     op = case["op"]                      # cumsum | cumsum_na | cummin | cummax | cumcount
     fn = "cumsum" if op == "cumsum_na" else op
     tr = base_trace(case, emb)
+    if case.get("long"):
+        tr["long"] = 1
     keyobj, _ = _keys_obj(case)
     values = _values_obj(case, emb)
     mask = _mask_obj(case)
